@@ -39,9 +39,15 @@ def run_entries(C, runner, entries, env_extra=None):
     """entries: list of dict(name, tree, jobs, [seed]) -> adds 'result'"""
     payload = [dict(id=k, files=tree_xml(e['tree']), jobs=e.get('jobs', []), seed=e.get('seed', k), want_sources=e.get('want_sources', False))
                for k, e in enumerate(entries)]
+    t0 = time.time()
     res = runner.run(payload, env_extra=env_extra)
+    log(f"[{C.pid}] real generator + generated code on {len(payload)} trees: {time.time() - t0:.1f}s")
     for k, e in enumerate(entries):
         e['result'] = res.get(k, {'driver_error': 'missing'})
+        if e['name'].startswith('mini-eo') and '+' not in e['name'] and e['result'].get('accepted') is False:
+            # the hand-written corpus is meant to be valid: a rejection is a defect of the corpus or of the generator
+            C.violation(f"corpus tree '{e['name']}' was rejected by the generator: {e['result'].get('error')}",
+                        dict(unit='protocol_code_generator', input=dict(tree=e['name'], xml=tree_xml(e['tree']))))
     return entries
 
 
@@ -75,6 +81,8 @@ def compare_entries(C, name, entries, label, want=('ser', 'deser'), max_cases_pe
                 cm.append(dict(kind='ser', job=job, out={k: v for k, v in out.items() if k != 'deser'}))
             if 'deser' in want:
                 for d in out.get('deser', []):
+                    if d.get('heavy'):
+                        continue
                     cases.append(deser_case(job['cls'], d))
                     cm.append(dict(kind='deser', cls=job['cls'], out=d))
         if len(cases) > max_cases_per_tree:
@@ -83,7 +91,9 @@ def compare_entries(C, name, entries, label, want=('ser', 'deser'), max_cases_pe
         items.append((e['tree'], bool(r.get('accepted')), cases))
         metas.append((e, cm))
     try:
+        t0 = time.time()
         fails = run_tree_cases(name, items)
+        log(f"[{C.pid}] E1 ({label}): {sum(len(i[2]) for i in items)} cases on {len(items)} trees in {time.time() - t0:.1f}s")
     except CoqCaseError as ex:
         C.broken.append(dict(kind='correspondence', stream=label, msg=str(ex)[-800:]))
         return []
